@@ -209,8 +209,14 @@ func (ps *ProcessSet) tracerProcess(ctx context.Context, process *Process, trace
 LOOP:
 	for {
 		var trace tracing.ITrace
+		var open bool
 		select {
-		case trace = <-traces:
+		case trace, open = <-traces:
+			if !open {
+				// the process's tracer has terminated: a closed channel is ready
+				// for ever, this loop would spin on it
+				return
+			}
 		case <-ctx.Done():
 			return
 		}
